@@ -40,6 +40,9 @@ pub struct RefInscription {
   pub unrecognized_even_field: bool,
   /// bound inscriptions already on its sat when it was created (ids)
   pub sat_occupants_before: Vec<Id>,
+  /// index of the input whose sats contain the offset the inscription was
+  /// made at (differs from `input` only through an effective pointer)
+  pub target_input: Option<usize>,
   /// of those, the ones from earlier transactions
   pub occupied_by_earlier_tx: bool,
   pub input_value: u64,
@@ -163,6 +166,9 @@ impl RefInscriptions {
             input_start[input]
           };
           let sat = if unbound { None } else { sat_at(&stream, offset) };
+          let target_input = (0..per_input.len())
+            .rev()
+            .find(|i| input_start[*i] <= offset && super::sats::total(&per_input[*i]) > 0 && offset < input_start[*i] + super::sats::total(&per_input[*i]));
           let occupants: Vec<Id> = sat
             .and_then(|s| self.by_sat.get(&s))
             .map(|list| list.iter().map(|i| self.list[*i].id).collect())
@@ -189,6 +195,7 @@ impl RefInscriptions {
             incomplete_field: payload.incomplete_field,
             unrecognized_even_field: payload.unrecognized_even_field,
             sat_occupants_before: occupants,
+            target_input,
             occupied_by_earlier_tx,
             input_value,
             moves: 0,
